@@ -163,3 +163,152 @@ def split_top(s, sep=","):
         i += 1
     parts.append("".join(cur))
     return parts
+
+
+# ---------------------------------------------------------------- helper inlining / constant resolution
+def fn_defs(src):
+    """name -> (params, has_self, body) for every non-generic `fn name(..) {..}` in `src` whose
+    parameters are plain `name: Type` patterns (first definition wins)."""
+    defs = {}
+    for m in re.finditer(r"(\bpub(?:\([^)]*\))?\s+)?(?:const\s+)?(?:unsafe\s+)?\bfn\s+(\w+)\s*(<[^>(]*>)?\s*\(", src):
+        name = m.group(2)
+        if m.group(3) or name in defs:
+            continue
+        i = m.end() - 1
+        j = match_delim(src, i)
+        if j < 0:
+            continue
+        k = src.find("{", j)
+        semi = src.find(";", j)
+        if k < 0 or (0 <= semi < k):
+            continue
+        e = match_delim(src, k)
+        if e < 0:
+            continue
+        params, has_self, ok = [], False, True
+        for p in split_top(src[i + 1:j]):
+            p = p.strip()
+            if not p:
+                continue
+            if re.fullmatch(r"(&\s*(mut\s+)?|mut\s+)?self", p):
+                has_self = True
+                continue
+            pm = re.match(r"(?:mut\s+)?(\w+)\s*:", p)
+            if not pm:
+                ok = False
+                break
+            params.append(pm.group(1))
+        if ok:
+            defs[name] = (params, has_self, src[k + 1:e], bool(m.group(1)))
+    return defs
+
+
+def _subst(body, name, arg):
+    simple = re.fullmatch(r"[\w\.]+|\*?[\w\.]+", arg.strip()) is not None
+    rep = arg.strip() if simple else "(" + arg.strip() + ")"
+    return re.sub(r"(?<![\.\w])" + re.escape(name) + r"\b", lambda _m: rep, body)
+
+
+def inline_calls(body, defs, keep=(), rounds=3):
+    """Replace calls of private helper functions defined in `defs` by their bodies (parameters
+    substituted textually).  Purely syntactic: good enough to see through `fn keep_guard(..)`,
+    `fn assert_same_signature(..)`-style extractions; anything else is left as it is."""
+    for _ in range(rounds):
+        changed = False
+        out, i = [], 0
+        pat = re.compile(r"(?<![\w])(?:((?:self|[A-Za-z_]\w*)(?:\.\w+)*)\.)?(\w+)\s*\(")
+        while True:
+            m = pat.search(body, i)
+            if not m:
+                out.append(body[i:])
+                break
+            recv, name = m.group(1), m.group(2)
+            d = defs.get(name)
+            prev = body[max(0, m.start() - 4):m.start()]
+            if d is None or name in keep or d[3] or prev.rstrip().endswith("fn") or (d[1] and recv is None) or (not d[1] and recv not in (None, "Self")):
+                out.append(body[i:m.end()])
+                i = m.end()
+                continue
+            op = m.end() - 1
+            cl = match_delim(body, op)
+            if cl < 0:
+                out.append(body[i:m.end()])
+                i = m.end()
+                continue
+            args = [a for a in split_top(body[op + 1:cl]) if a.strip()]
+            params, has_self, fb, _ = d
+            if len(args) != len(params):
+                out.append(body[i:m.end()])
+                i = m.end()
+                continue
+            new = fb
+            for p, a in zip(params, args):
+                new = _subst(new, p, a)
+            if has_self:
+                new = re.sub(r"(?<![\.\w])self\b", lambda _m: recv, new)
+            out.append(body[i:m.start()])
+            out.append("{" + new + "}")
+            i = cl + 1
+            changed = True
+        body = "".join(out)
+        if not changed:
+            break
+    return body
+
+
+def module_consts(src):
+    """`const NAME: T = <integer expression of literals and other constants>;` -> {NAME: int}"""
+    raw, dup = {}, set()
+    for m in re.finditer(r"\bconst\s+([A-Z_][A-Z0-9_]*)\s*:\s*[^=;\[\]]+=\s*([^;]+);", src):
+        if m.group(1) in raw:
+            dup.add(m.group(1))      # cfg-dependent variants (or shadowing): not resolved
+        raw[m.group(1)] = m.group(2).strip()
+    for k in dup:
+        del raw[k]
+    vals = {}
+
+    def ev(expr, depth=0):
+        if depth > 6:
+            return None
+        v = parse_int(expr)
+        if v is not None:
+            return v
+        toks = re.findall(r"[A-Za-z_]\w*|0x[0-9A-Fa-f_]+|\d[\d_]*|[\*\+\-\(\)]|<<|\S", expr)
+        py = []
+        for t in toks:
+            if re.fullmatch(r"0x[0-9A-Fa-f_]+|\d[\d_]*", t):
+                py.append(str(parse_int(t)))
+            elif t in ("*", "+", "-", "(", ")", "<<"):
+                py.append(t)
+            elif t in raw:
+                r = ev(raw[t], depth + 1)
+                if r is None:
+                    return None
+                py.append(str(r))
+            elif re.fullmatch(r"u8|u16|u32|u64|usize|i32|i64|isize|as", t):
+                continue
+            else:
+                return None
+        try:
+            return int(eval(" ".join(py), {"__builtins__": {}}))
+        except Exception:
+            return None
+    for k, e in raw.items():
+        v = ev(e)
+        if v is not None:
+            vals[k] = v
+    return vals
+
+
+def resolve_consts(src):
+    """textually replace uses (not definitions) of integer module constants by their values"""
+    vals = module_consts(src)
+    if not vals:
+        return src
+
+    def rep(m):
+        pre = src[max(0, m.start() - 8):m.start()]
+        if re.search(r"(const|static|let)\s+$", pre):
+            return m.group(0)
+        return str(vals[m.group(0)])
+    return re.sub(r"(?<![\w:])(" + "|".join(re.escape(k) for k in sorted(vals, key=len, reverse=True)) + r")\b(?!\s*:)", rep, src)
